@@ -108,7 +108,7 @@ def leanchecker(mods):
 
 # theorem files that serve several properties: the correctness of the (transcribed) noncontiguous
 # compiler turns Tie A's per-instance validation of that automaton into a theorem for all pattern lists
-EXTRA_THEOREMS = {  "C01": [   "L1c.lean",   "L1cDense.lean",   "L1cMem.lean",   "L1cMemCompile.lean",   "TopLevel.lean"  ],  "C02": [   "L1c.lean",   "L1cDense.lean",   "L1cMem.lean",   "L1cMemCompile.lean",   "TopLevel.lean"  ],  "C03": [   "L1c.lean",   "L1cMem.lean",   "L1cMemCompile.lean",   "TopLevel.lean"  ],  "C04": [   "L1d.lean",   "L1e.lean",   "L1dIds.lean",   "L1Alphabet.lean"  ],  "C05": [   "TopLevel.lean",   "TopLevelPre.lean"  ],  "C07": [   "TopLevel.lean"  ],  "C08": [   "C07Transfer.lean",   "C07Fold.lean",   "TopLevel.lean",   "TopLevel2.lean"  ],  "C09": [   "TopLevel.lean"  ],  "C10": [   "TopLevel.lean",   "TopLevel2.lean",   "C06.lean"  ],  "C11": [   "L1cFold.lean",   "L1dFold.lean",   "L1eFold.lean",   "L1dIdsFold.lean",   "C07Fold.lean"  ],  "C12": [   "TopLevel.lean"  ],  "C13": [   "TopLevel.lean",   "TopLevel2.lean"  ],  "C14": [   "TopLevel.lean",   "TopLevel2.lean"  ],  "C15": [   "C06.lean",   "L1dIds.lean",   "L1eSafe.lean",   "L1cIds.lean"  ],  "C16": [   "L1d.lean",   "L1e.lean",   "L1dIds.lean",   "L1cIds.lean"  ],  "C17": [   "TopLevel.lean",   "TopLevel2.lean"  ],  "C18": [   "C07Transfer.lean",   "C07Fold.lean",   "TopLevel.lean",   "TopLevel2.lean"  ],  "C19": [   "L1c.lean",   "L1e.lean"  ],  "C20": [   "TopLevel.lean"  ] }
+EXTRA_THEOREMS = {  "C01": [   "L1c.lean",   "L1cDense.lean",   "L1cMem.lean",   "L1cMemCompile.lean",   "TopLevel.lean"  ],  "C02": [   "L1c.lean",   "L1cDense.lean",   "L1cMem.lean",   "L1cMemCompile.lean",   "TopLevel.lean"  ],  "C03": [   "L1c.lean",   "L1cMem.lean",   "L1cMemCompile.lean",   "TopLevel.lean"  ],  "C04": [   "L1d.lean",   "L1e.lean",   "L1dIds.lean",   "L1Alphabet.lean"  ],  "C05": [   "TopLevel.lean",   "TopLevelPre.lean"  ],  "C07": [   "TopLevel.lean"  ],  "C08": [   "C07Transfer.lean",   "C07Fold.lean",   "TopLevel.lean",   "TopLevel2.lean"  ],  "C09": [   "TopLevel.lean"  ],  "C10": [   "TopLevel.lean",   "TopLevel2.lean",   "C06.lean"  ],  "C11": [   "L1cFold.lean",   "L1dFold.lean",   "L1eFold.lean",   "L1dIdsFold.lean",   "C07Fold.lean"  ],  "C12": [   "TopLevel.lean"  ],  "C13": [   "TopLevel.lean",   "TopLevel2.lean"  ],  "C14": [   "TopLevel.lean",   "TopLevel2.lean"  ],  "C15": [   "C06.lean",   "L1dIds.lean",   "L1eSafe.lean",   "L1cIds.lean"  ],  "C16": [   "L1d.lean",   "L1e.lean",   "L1dIds.lean",   "L1cIds.lean"  ],  "C17": [   "TopLevel.lean",   "TopLevel2.lean"  ],  "C18": [   "C07Transfer.lean",   "C07Fold.lean",   "TopLevel.lean",   "TopLevel2.lean",   "C18Resume.lean"  ],  "C19": [   "L1c.lean",   "L1e.lean"  ],  "C20": [   "TopLevel.lean"  ] }
 
 
 def audit_theorems(prop, recheck=False):
